@@ -1,8 +1,9 @@
-SPECIFICATION Spec
+INIT MCInit
+NEXT Next
 CONSTANTS
   Algo = "asis"
   SeedCopyreg = FALSE
-  Scns <- Scns_sel
+  Scns = {}
 INVARIANT TypeOK
 INVARIANT Inv_FreshStart
 INVARIANT Inv_C14_Once
